@@ -14,7 +14,11 @@ Pipeline (DESIGN.md 7/C19):
      sciparse::path::combinator::combine in a watched child process (whole set and its good part,
      for every (src, dst) pair of the topology).  P-monitors on the REAL output:
        Total          no panic, the child does not die
-       Bounded        CPU time of the combining thread <= min(0.2 s + 2 us * n^3, 10 s), n = AS entries
+       Bounded        self-calibrating: a call slower than 0.1 s (CPU time of the thread) is measured
+                      three times (minimum) and compared with a fixed reference workload (252 AS entries)
+                      measured at the same moment: allowed min(200 * (1 + (n/16)^3/(252/16)^3), 4000) reference
+                      units, n = AS entries + peer entries (cubic, cap ~10 s of an idle core; wide margin: the
+                      monitor is for super-polynomial searches, not constant factors)
        SelfConsistent every returned path re-parses with StandardPathView::try_from_slice, its
                       metadata interface list equals the interfaces its hop fields traverse (count = 2 x
                       links, ids, AS chaining, no id 0), src/dst = first/last interface, expiry = min hop expiry
@@ -27,12 +31,14 @@ Pipeline (DESIGN.md 7/C19):
   3. record: seeded random soups (random topology + up to 24 mutated copies / duplicates / junk islands,
      at most 40 segments, 90-entry oversize segments) -> Trace_SegSoup: TLC classifies the junk with the
      specification's NonContributing and evaluates Total / Bounded / SelfConsistent / Monotone on the
-     recorded outcome.
+     recorded outcome.  Two stress soups (13 x 14 x 13 twenty-AS segments = 2 366 three-segment paths;
+     six segments with 150 peer entries per AS entry) exercise the Bounded monitor.
 
 Readings adopted (demanding less):
   * a path is identified by its sequence of (AS, interface) pairs; MACs and expiry are not compared for Monotone.
-  * Bounded is measured in CPU time of the thread running combine (robust against machine load); the
-    constants are >= 20x the largest value observed on unmutated inputs.
+  * Bounded never compares a time with a constant: CPU time of the thread running combine is
+    compared with a reference workload measured at the same moment (the machine may be shared or
+    virtualised; stolen time inflates both alike); ratios still vary widely under load, hence a wide margin.
   * the endpoints of a returned path are only compared with the path's own interface list (a path whose
     first AS is not the requested source would be self-consistent; this is counted, not judged).
   * MTU metadata is not part of SelfConsistent.
@@ -119,7 +125,7 @@ def trace_step(c, binp):
         report(c, pv, {"kind": "soup", "case": {"soup": pv["case"]["soup"], "h": [], "t": 0,
                                                 "x": [{"src": p[0], "dst": p[1], "paths": [], "good": [], "panic": False, "allnc": False} for p in pv["case"]["pairs"]]}},
                " (record run %s, seed %d)" % (pv.get("run"), c.seed))
-    if rec["max_segments"] < 30:
+    if rec["max_segments"] < 30 and not any(pv["key"].startswith("Total:died") for pv in rec["pv"]):
         c.fail_tool("vacuous traces: largest soup has only %d segments" % rec["max_segments"])
     r = c.tlc(SD, "Trace_SegSoup", cfg="Trace_SegSoup.cfg", mode="trace", env={"TRACE": ev}, timeout=6000)
     traces = 0
@@ -145,7 +151,7 @@ def run(c):
         return run_replay_file(c, binp, c.replay)
     c.assumptions += [
         "the combinator is driven through combine() with unsigned segments (MACs computed by add_unsigned_entry); signatures are C18's subject",
-        "Bounded uses the CPU time of the combining thread (CLOCK_THREAD_CPUTIME_ID), bound min(0.2 s + 2 us * n^3, 10 s)",
+        "Bounded: CPU time of the combining thread (CLOCK_THREAD_CPUTIME_ID), minimum of three runs, relative to a reference workload measured at the same moment; allowed min(200*(1+(n/16)^3/3375), 4000) units",
         "path identity for Monotone = sequence of (AS, interface) pairs",
         "TLC 1.8.0, CommunityModules Json/IOUtils",
     ]
@@ -243,12 +249,21 @@ def run(c):
     # ---- 2b. the same soups through PathFetcherImpl::fetch_paths with scripted segment sources ----
     fbin = c.cargo_build("vh-stack", bin="segfetch")
     foutp = os.path.join(c.work, "fetch_out.ndjson")
-    rc, so = c.sh([fbin, "replay", inp, foutp], timeout=6000)
-    if rc != 0:
-        c.fail_tool("segfetch harness failed rc=%s %s" % (rc, (getattr(c, "last_stderr", "") or "")[-400:]))
-    fres = read_ndjson(foutp)
-    if len(fres) != len(cases):
-        c.fail_tool("segfetch produced %d results for %d cases" % (len(fres), len(cases)))
+    if any("died" in o for o in res):
+        # combine() already killed its (watched) process; fetch_paths runs it in-process: do not try
+        c.drift("fetch_paths step skipped: combine() killed the watched child process in the previous step")
+        fres = []
+    else:
+        rc, so = c.sh([fbin, "replay", inp, foutp], timeout=6000)
+        if rc < 0:
+            c.violation("Total:died:fetch_paths", "the process running PathFetcherImpl::fetch_paths was killed by signal %d" % -rc, {"kind": "fetch", "rc": rc})
+            fres = []
+        elif rc != 0:
+            c.fail_tool("segfetch harness failed rc=%s %s" % (rc, (getattr(c, "last_stderr", "") or "")[-400:]))
+        else:
+            fres = read_ndjson(foutp)
+            if len(fres) != len(cases):
+                c.fail_tool("segfetch produced %d results for %d cases" % (len(fres), len(cases)))
     fmism = 0
     for h, o in zip(cases, fres):
         for pv in o["pv"]:
